@@ -33,17 +33,20 @@ OUTSIDE == 0        \* "not one of the world's directories"
 MaxDepth == 5
 
 -----------------------------------------------------------------------------
-(* lexical paths: sequences of components; ".." steps up *)
+(* lexical paths: sequences of components; ".." steps up, "." stays *)
 RECURSIVE CommonLen(_, _, _)
 CommonLen(a, b, i) == IF i < Len(a) /\ i < Len(b) /\ a[i + 1] = b[i + 1] THEN CommonLen(a, b, i + 1) ELSE i
 
 Ups(n) == [i \in 1..n |-> ".."]
-RelPath(from, to) == LET k == CommonLen(from, to, 0) IN Ups(Len(from) - k) \o SubSeq(to, k + 1, Len(to))
+RelPath(from, to) == LET k == CommonLen(from, to, 0)
+                         p == Ups(Len(from) - k) \o SubSeq(to, k + 1, Len(to))
+                     IN IF p = <<>> THEN <<".">> ELSE p
 
 \* <<ok, path>>: ok = FALSE once ".." climbs above the world directory
 RECURSIVE Norm(_, _, _)
 Norm(p, i, acc) ==
   IF i > Len(p) THEN <<TRUE, acc>>
+  ELSE IF p[i] = "." THEN Norm(p, i + 1, acc)
   ELSE IF p[i] = ".." THEN (IF acc = <<>> THEN <<FALSE, <<>> >> ELSE Norm(p, i + 1, SubSeq(acc, 1, Len(acc) - 1)))
   ELSE Norm(p, i + 1, Append(acc, p[i]))
 
